@@ -104,7 +104,10 @@ def run(ctx, res):
     res.stats = R.stats(cases)
     res.exhaustive = True
     res.assumptions = [
-        "theorem C15_opt_is_minimax is about the verified optimum `opt`; the search algorithm is validated per output "
-        "against it (exactly with Fraction-valued difficulty functions, within 2^-30 with the shipped float ones)",
+        "theorems: C15_opt_is_minimax (the verified optimum `opt` is the minimax value) and C15_algo_optimal (the fuelled "
+        "model RaireAlgo.raire of the search returns largest difficulty = opt, for all inputs with dfun >= -10; tied to "
+        "compute_raire_assertions output-for-output by Run_Raire.agree_algo); the implementation is also compared with opt "
+        "per output (exactly with Fraction-valued difficulty functions, within 2^-30 with the shipped float ones); NOT proved: "
+        "that the constant default_fuel suffices (termination itself is proved in PC04: some fuel suffices; exhaustion is reported as a disagreement)",
         "agap = 0 only",
     ]
